@@ -51,6 +51,8 @@ type Contract struct {
 	Requires []*Clause
 	Ensures  []*Clause
 	Modifies []string
+	Exits    []*Clause         // exit: assertions at every return that may mention local variables (not part of the interface callers see)
+	Searches map[int][]*Clause // search k predicate/invariant: the k-th sort.Search call
 	Sets     []*Clause         // ghost assignments performed at every return: sets NAME = expr
 	Loops    map[int][]*Clause // invariants and lets, by loop ordinal
 	Walks    map[int][]*Clause
@@ -82,7 +84,7 @@ type Contracts struct {
 	Files  []string
 }
 
-var clauseKeywords = map[string]bool{"func": true, "requires": true, "ensures": true, "modifies": true, "loop": true, "walk": true,
+var clauseKeywords = map[string]bool{"exit": true, "search": true, "func": true, "requires": true, "ensures": true, "modifies": true, "loop": true, "walk": true,
 	"inline": true, "sets": true, "trusted-ensures": true, "spec": true, "lemma": true, "trusted": true, "package": true}
 
 var labelRe = regexp.MustCompile(`^\[([A-Z0-9, ]+)\]\s*`)
@@ -252,7 +254,7 @@ func groupClauses(lines []rawLine) []rawLine {
 	return out
 }
 
-var groupRe = regexp.MustCompile(`^\s*\{([A-Za-z0-9_-]+)\}\s*`)
+var groupRe = regexp.MustCompile(`^\s*\{(~?[A-Za-z0-9_-]+)\}\s*`)
 
 func (cs *Contracts) parseFile(file, pkgPath string, data string) error {
 	lines, _, err := contractLinesFrom(file, data)
@@ -296,7 +298,7 @@ func (cs *Contracts) parseFile(file, pkgPath string, data string) error {
 			key := strings.ReplaceAll(rest, " ", "")
 			key = strings.Replace(key, ")", ").", 1)
 			key = strings.Replace(key, "..", ".", 1)
-			cur = &Contract{Key: key, Pkg: pkgPath, Loops: map[int][]*Clause{}, Walks: map[int][]*Clause{}, File: l.file, Line: l.line, Props: map[string]bool{}}
+			cur = &Contract{Key: key, Pkg: pkgPath, Loops: map[int][]*Clause{}, Walks: map[int][]*Clause{}, Searches: map[int][]*Clause{}, File: l.file, Line: l.line, Props: map[string]bool{}}
 			k := pkgPath + "::" + key
 			if _, dup := cs.ByKey[k]; dup {
 				return fmt.Errorf("%s:%d: duplicate contract for %s", l.file, l.line, k)
@@ -327,6 +329,40 @@ func (cs *Contracts) parseFile(file, pkgPath string, data string) error {
 			} else {
 				cur.Ensures = append(cur.Ensures, c)
 			}
+			for _, p := range c.Labels {
+				cur.Props[p] = true
+			}
+		case "exit":
+			if cur == nil {
+				return fmt.Errorf("%s:%d: exit outside func", l.file, l.line)
+			}
+			c, err := mk("exit", rest)
+			if err != nil {
+				return err
+			}
+			cur.Exits = append(cur.Exits, c)
+			for _, p := range c.Labels {
+				cur.Props[p] = true
+			}
+		case "search":
+			// search k predicate <expr over idxS> | search k invariant <expr over hiS and captured variables>
+			if cur == nil || len(fs) < 3 {
+				return fmt.Errorf("%s:%d: malformed search clause", l.file, l.line)
+			}
+			k, err := strconv.Atoi(fs[1])
+			if err != nil {
+				return fmt.Errorf("%s:%d: search ordinal: %v", l.file, l.line, err)
+			}
+			sub := fs[2]
+			if sub != "predicate" && sub != "invariant" {
+				return fmt.Errorf("%s:%d: unknown search clause %q", l.file, l.line, sub)
+			}
+			c, err := mk(sub, strings.TrimSpace(strings.SplitN(l.text, sub, 2)[1]))
+			if err != nil {
+				return err
+			}
+			c.Loop = k
+			cur.Searches[k] = append(cur.Searches[k], c)
 			for _, p := range c.Labels {
 				cur.Props[p] = true
 			}
